@@ -631,31 +631,41 @@ fn run_script(m: &RaftModel, init: &Sys, script: &[&dyn Fn(&Sys, &[Act]) -> Opti
 fn deliver_where(acts: &[Act], f: impl Fn(&Env) -> bool) -> Option<Act> {
     acts.iter().find(|a| matches!(a, Act::Deliver(e) if f(e))).cloned()
 }
+/// smallest node id that is neither a nor b
+fn third(a: u8, b: u8) -> u8 {
+    (0..).find(|x| *x != a && *x != b).unwrap()
+}
 /// drive node `c` to leadership from the given state: timer, all (pre-)vote traffic between c and `voter`
+/// (on 5 voters: and one more voter, the majority being 3)
 fn elect(m: &RaftModel, s: &Sys, c: u8, voter: u8) -> Option<Sys> {
+    let voters: Vec<u8> = if m.cfg.n >= 5 { vec![voter, third(c, voter)] } else { vec![voter] };
     let mut s = s.clone();
     if m.cfg.pre_vote {
-        s = m.next_state(&s, Act::Stale(voter)).unwrap_or(s);
+        for v in &voters {
+            s = m.next_state(&s, Act::Stale(*v)).unwrap_or(s);
+        }
     }
     s = m.next_state(&s, Act::Lapse(c))?;
-    for _ in 0..6 {
+    for _ in 0..12 {
         if s.nodes[c as usize].role == 2 {
             break;
         }
         let mut acts = vec![];
         m.actions(&s, &mut acts);
-        let a = deliver_where(&acts, |e| (e.from == c && e.to == voter && matches!(e.msg, Msg::PV { .. } | Msg::RV { .. })) || (e.from == voter && e.to == c && matches!(e.msg, Msg::PVR { .. } | Msg::RVR { .. })))?;
+        let a = deliver_where(&acts, |e| (e.from == c && voters.contains(&e.to) && matches!(e.msg, Msg::PV { .. } | Msg::RV { .. })) || (voters.contains(&e.from) && e.to == c && matches!(e.msg, Msg::PVR { .. } | Msg::RVR { .. })))?;
         s = m.next_state(&s, a)?;
     }
     (s.nodes[c as usize].role == 2).then_some(s)
 }
-/// heartbeat round trip leader l <-> follower f (makes the leader write-safe / replicates)
+/// heartbeat round trip leader l <-> follower f (makes the leader write-safe / replicates); on 5 voters
+/// also with one more follower, so that the exchange reaches a majority
 fn round_trip(m: &RaftModel, s: &Sys, l: u8, f: u8) -> Option<Sys> {
+    let followers: Vec<u8> = if m.cfg.n >= 5 { vec![f, third(l, f)] } else { vec![f] };
     let mut s = m.next_state(s, Act::Heartbeat(l))?;
-    for _ in 0..2 {
+    for _ in 0..2 * followers.len() {
         let mut acts = vec![];
         m.actions(&s, &mut acts);
-        let a = deliver_where(&acts, |e| (e.from == l && e.to == f && matches!(e.msg, Msg::AE { .. })) || (e.from == f && e.to == l && matches!(e.msg, Msg::AER { .. })))?;
+        let a = deliver_where(&acts, |e| (e.from == l && followers.contains(&e.to) && matches!(e.msg, Msg::AE { .. })) || (followers.contains(&e.from) && e.to == l && matches!(e.msg, Msg::AER { .. })))?;
         s = m.next_state(&s, a)?;
     }
     Some(s)
@@ -882,7 +892,7 @@ fn main() {
     let base = Cfg { n: 3, pre_vote: false, fast_path: false, tiebreak: false, max_term: 2, max_log: 2, dups: 1, crashes: 1, seeds: true, wal: false, rivals: false, repair: false };
     if thorough {
         for (pv, fp, tb) in [(false, false, false), (true, false, false), (false, true, false), (false, false, true), (true, true, true)] {
-            cfgs.push((format!("n3 prevote={pv} fastpath={fp} tiebreak={tb} term<=3 log<=3 dup<=2 crash<=2"), Cfg { pre_vote: pv, fast_path: fp, tiebreak: tb, max_term: 3, max_log: 3, dups: 2, crashes: 2, ..base.clone() }, 10));
+            cfgs.push((format!("n3 prevote={pv} fastpath={fp} tiebreak={tb} term<=3 log<=3 dup<=2 crash<=2"), Cfg { pre_vote: pv, fast_path: fp, tiebreak: tb, max_term: 3, max_log: 3, dups: 2, crashes: 2, ..base.clone() }, if (pv, fp, tb) == (false, false, false) { 10 } else { 9 }));
         }
         cfgs.push(("n5 prevote=false term<=2 log<=1 dup<=0 crash<=1".into(), Cfg { n: 5, max_term: 2, max_log: 1, dups: 0, crashes: 1, ..base.clone() }, 9));
         cfgs.push(("n5 rival candidates of term 3 (one a deposed leader) prevote=true term<=3 log<=0".into(), Cfg { n: 5, pre_vote: true, max_term: 3, max_log: 0, dups: 0, crashes: 0, rivals: true, ..base.clone() }, 10));
